@@ -3,6 +3,7 @@ package main
 import (
 	"encoding/json"
 	"fmt"
+	"hash/crc32"
 	"math/rand"
 	"os"
 	"path/filepath"
@@ -306,11 +307,20 @@ func hotMain(base string, secs float64, ng, idx, iot int, backups bool) {
 		g := g
 		go func() {
 			defer wg.Done()
+			var prevV []byte
+			var prevSum uint32
 			for {
 				select {
 				case <-stop:
 					return
 				default:
+				}
+				// the slice returned by the PREVIOUS Get must still hold what it held (a completed Get's result is the caller's)
+				if prevV != nil && crc32.ChecksumIEEE(prevV) != prevSum {
+					mu.Lock()
+					errs["get:returned-slice-changed-later"]++
+					mu.Unlock()
+					atomic.AddInt64(&bad, 1)
 				}
 				n := atomic.LoadInt64(&acked)
 				back := int64(g % 8)
@@ -345,6 +355,11 @@ func hotMain(base string, secs float64, ng, idx, iot int, backups bool) {
 					errs["get:foreign-value"]++
 					mu.Unlock()
 					atomic.AddInt64(&bad, 1)
+				}
+				if err == nil {
+					prevV, prevSum = v, crc32.ChecksumIEEE(v)
+				} else {
+					prevV = nil
 				}
 			}
 		}()
